@@ -919,11 +919,26 @@ Section Eval.
           (* leaving the block drops its variables: objects only they referred to are released *)
           do s3 <- post_stmt k s2; Ok (k, s3)
       | SDestroy a =>
-          do (v, s1) <- ev s a;
-          match v with
-          | VObj (Some l) _ => do s2 <- destroy_obj l s1; Ok (CNormal, s2)
-          | VObj None _ => Ok (CNormal, s1)
-          | _ => stuck "destroy of a non-object"
+          (* 'destroy x' gives up this reference; the destructor runs when it was the last one *)
+          match a with
+          | EVar x => do old <- read_name x s;
+                      match old with
+                      | VObj _ c => do s1 <- write_name x (VObj None c) s; Ok (CNormal, s1)
+                      | _ => stuck "destroy of a non-object"
+                      end
+          | EField o f =>
+              do (vo, s1) <- ev s o;
+              match vo with
+              | VObj (Some l) _ =>
+                  do old <- get_field s1 l f;
+                  match old with
+                  | VObj _ c => do s2 <- set_field s1 l f (VObj None c); Ok (CNormal, s2)
+                  | _ => stuck "destroy of a non-object"
+                  end
+              | VObj None _ => Err RNull
+              | _ => stuck "destroy of a non-object"
+              end
+          | _ => do (_, s1) <- ev s a; Ok (CNormal, s1)
           end
       end.
   End Step.
